@@ -29,6 +29,18 @@ func unhx(s string) []byte {
 	if s == "-" {
 		return nil
 	}
+	if strings.HasPrefix(s, "*") { // run-length form "*<n>:<hh>": n copies of one byte (large values without large scripts)
+		var n int
+		var c byte
+		if _, err := fmt.Sscanf(s, "*%d:%02x", &n, &c); err != nil {
+			panic(fmt.Sprintf("bad run-length token %q", s))
+		}
+		b := make([]byte, n)
+		for i := range b {
+			b[i] = c
+		}
+		return b
+	}
 	b, err := hex.DecodeString(s)
 	if err != nil {
 		panic(fmt.Sprintf("bad hex %q", s))
